@@ -5,8 +5,11 @@ CLASSES = {
   'LoadBalancerSink': dict(path='LoadBalancerSink', bases=['ClientMessageSink'], fields={
     '_servers': 'dict[any,ChannelFactory]', '_state': 'int', '_endpoint_name': 'any',
     '__init_done': 'Event', '__open_ar': 'AsyncResult?', '_properties': 'any',
-    '_next_sink_provider': 'NextProvider', '_server_set_provider': 'ServerSetProviderX', '_open_greenlet': 'any'}),
-  'ServerSetProviderX': dict(extern=True, path=None, fields={}, bases=[]),
+    '_next_sink_provider': 'NextProvider', '_server_set_provider': 'ServerSetProviderX', '_open_greenlet': 'any',
+    '__open_greenlet': 'any', '_log': 'any'}),
+  'SinkPropsX': dict(extern=True, path=None, bases=[], fields={'server_set_provider': 'ServerSetProviderX', 'min_size': 'int', 'max_size': 'int', 'min_load': 'real', 'max_load': 'real',
+                                                           'jitter_min_sec': 'int', 'jitter_max_sec': 'int'}),
+  'ServerSetProviderX': dict(extern=True, path=None, fields={'endpoint_name': 'any'}, bases=[]),
   # a server-set member as the balancer reads it
   'SetMember': dict(extern=True, path=None, fields={'service_endpoint': 'any', 'additional_endpoints': 'dict[any,any]'}, bases=[]),
   'Event': dict(extern=True, path=None, fields={'flag': 'bool'}, bases=[]),
@@ -204,4 +207,45 @@ EXTERNS.update({
   'random.shuffle': dict(params=[('l', 'list[SetMember]')], modifies=['list[SetMember].items'],
                          ensures=['len(l) == old(len(l))', 'forall(k, 0, len(l), exists(j, 0, len(l), l[k] == old(l[j])))'],
                          notes='a permutation of the list'),
+})
+
+
+# ----------------------------------------------------------------------------------------------------------------
+# construction: the freshly built balancer satisfies the invariants every other unit starts from
+FUNCTIONS.update({
+  'LoadBalancerSink.__init__': dict(
+    cls='LoadBalancerSink', params={'next_provider': 'NextProvider', 'sink_properties': 'SinkPropsX', 'global_properties': 'any'}, returns='none',
+    requires=['allocated(sink_properties) and allocated(sink_properties.server_set_provider)'],
+    ensures=['allocated(self._servers) and fresh(self._servers)', 'forall(e, "any", not has_key(self._servers, e))', 'self.__open_ar is None',
+             'allocated(self.__init_done) and not self.__init_done.flag', 'self._state == ChannelState.Idle'],
+    modifies=['LoadBalancerSink._properties', 'LoadBalancerSink._log', 'LoadBalancerSink.__init_done', 'LoadBalancerSink.__open_ar', 'LoadBalancerSink.__open_greenlet',
+              'LoadBalancerSink._server_set_provider', 'LoadBalancerSink._endpoint_name', 'LoadBalancerSink._next_sink_provider', 'LoadBalancerSink._state', 'LoadBalancerSink._servers',
+              'dict[any,ChannelFactory]', 'Event.flag', 'ClientMessageSink._on_faulted', 'MessageSink._next', 'Observable.value', 'Observable.g_nsubs', '$cls'],
+    allocates=True, drop=['__class__'],
+    props=['C05'],
+  ),
+  'HeapBalancerSink.__init__': dict(
+    file='scales/loadbalancer/heap.py', cls='HeapBalancerSink',
+    params={'next_provider': 'NextProvider', 'sink_properties': 'SinkPropsX', 'global_properties': 'any'}, returns='none',
+    # the node universe of the invariant is per balancer (C03 assumption): at construction no node exists yet
+    requires=['allocated(sink_properties) and allocated(sink_properties.server_set_provider)', 'forall_ref(r, Node, not allocated(r), r.index)',
+              'forall_ref(r, Node, not r.g_inq, r.g_inq)'],      # initial ghost state: nobody is on a down list
+    ensures=['HeapMem(self)', 'self._size == 0', 'not self._open', 'self.__open_ar is None', 'allocated(self.__init_done) and not self.__init_done.flag',
+             # the only node in existence is the sentinel, with a channel of its own
+             'forall_ref(r, Node, implies(allocated(r), r == self._heap[0]), r.channel)', 'allocated(self._heap[0].channel)'],
+    modifies=['LoadBalancerSink._properties', 'LoadBalancerSink._log', 'LoadBalancerSink.__init_done', 'LoadBalancerSink.__open_ar', 'LoadBalancerSink.__open_greenlet',
+              'LoadBalancerSink._server_set_provider', 'LoadBalancerSink._endpoint_name', 'LoadBalancerSink._next_sink_provider', 'LoadBalancerSink._state', 'LoadBalancerSink._servers',
+              'dict[any,ChannelFactory]', 'Event.flag', 'ClientMessageSink._on_faulted', 'MessageSink._next', 'Observable.value', 'Observable.g_nsubs', '$cls',
+              'HeapBalancerSink._heap', 'HeapBalancerSink._no_members', 'HeapBalancerSink._downq', 'HeapBalancerSink._size', 'HeapBalancerSink._open', 'HeapBalancerSink._heap_lock',
+              'HeapBalancerSink.__varz', 'HeapBalancerSink.g_node', 'list[Node]', 'dict[any,Node]', 'Node.load', 'Node.index', 'Node.downq', 'Node.avg_load', 'Node.channel', 'Node.endpoint',
+              'Node.g_out', 'Node.g_inq', 'FailingMessageSink._ex'],
+    allocates='any', drop=['HeapVarz'],
+    ghost=[{'after': 'self._size = 0', 'do': ['self._heap[0].g_out = 0', 'self._heap[0].g_inq = False', 'self.g_node = {}']}],
+    literals={'{}': 'dict[any,Node]'},
+    props=['C03', 'C05'],
+  ),
+})
+
+EXTERNS.update({
+  'Event.__init__': dict(params=[], returns='Event', fresh=True, allocates=True, modifies=['Event.flag'], ensures=['not result.flag']),
 })
